@@ -44,7 +44,6 @@ pub mod trusted_axioms {
     }
 }
 
-broadcast use trusted_axioms::axiom_str_len_fits;
 
 /// stand-in for std::io::Read + byteorder::ReadBytesExt over an abstract byte source `rest()`.
 /// `eof_only()`: the source fails only when it runs out of data (no transient I/O errors).
